@@ -159,7 +159,7 @@ def inbound_of(case, optraces):
     buf = bytearray(case.pre)
     for ot in optraces:
         for e in ot.events:
-            if e.startswith('R:') and e not in ('R:eof',) and not e.startswith('R:e:'):
+            if e.startswith('R:') and e not in ('R:eof', 'R:EMPTYBUF', 'R:BUDGET', 'R:-') and not e.startswith('R:e:'):
                 buf += bytes.fromhex(e[2:])
     return bytes(buf)
 
